@@ -223,6 +223,8 @@ class kLeastAbsErrorsCycles(walkmodel.AbstractWalkModelDiGraph):
         # then we know their edges must appear in the solution, so we add their edges to the trusted edges for safety
         self.optimization_options["trusted_edges_for_safety"] = self.trusted_edges_for_safety or set()
         if self.subset_constraints is not None:
+            # The constraints are used below, before the base class gets to validate them
+            self._check_valid_subset_constraints()
             if self.subset_constraints_coverage == 1.0:
                 for constraint in self.subset_constraints:
                     self.optimization_options["trusted_edges_for_safety"].update(constraint)
